@@ -242,7 +242,7 @@ func countPanics(ch []cx.Beh) int {
 func nontrivialActs(acts []cx.Act) bool {
 	for i, x := range acts {
 		switch x.K {
-		case "A", "C", "P":
+		case "A", "C", "P", "F":
 			return true
 		case "N":
 			if i != len(acts)-1 {
@@ -324,7 +324,7 @@ func genR(r *hx.Rand, st *hx.Stats) rCase {
 	c.Wire = r.Chance(1, 8)
 	plain := [][]cx.Act{a("N"), a("N"), a("N"), a("W", "N"), a("N", "W"), a("N", "N"), a(), {{K: "K", Body: a("N")}}}
 	if !c.Wrap && !c.Wire { // cancelling the request context is not a deterministic act over a real connection
-		plain = append(plain, a("C", "N"), a("A", "N"))
+		plain = append(plain, a("C", "N"), a("A", "N"), []cx.Act{{K: "F"}}, []cx.Act{{K: "F", V: 1}, {K: "N"}})
 	}
 	for i := 0; i < n; i++ {
 		c.Chain = append(c.Chain, cx.Beh{H: i + 1, Acts: hx.Pick(r, plain)})
